@@ -28,7 +28,7 @@ type dbgPlan struct {
 	Workers      int      `json:"workers"`
 	BPs          []dbgBP  `json:"breakpoints"`
 	BreakOnStart bool     `json:"break_on_start,omitempty"`
-	ResumeOnly   bool     `json:"resume_only,omitempty"` // C15(c): static breakpoints, resume commands only, break-on-error off
+	ResumeOnly   bool     `json:"resume_only,omitempty"`           // C15(c): static breakpoints, resume commands only, break-on-error off
 	StopAtRound  int      `json:"stop_threads_at_round,omitempty"` // C15: StopThreads() while the program runs / threads are suspended
 	Lines        int      `json:"lines"`
 	// C16 only
